@@ -965,6 +965,9 @@ class Interp:
     def e_SetComp(self, st, node):
         return B.comprehension(self, st, node, "set")
 
+    def e_DictComp(self, st, node):
+        return B.dict_comprehension(self, st, node)
+
     def e_Lambda(self, st, node):
         raise Unsupported("lambda")
 
